@@ -75,7 +75,7 @@ def make_base(base, tree, cas, cfg, src_root=None):
 
 def parse(base, path, mode='-d', extra=()):
     """-> (ok, first error line, stdout bytes)"""
-    r = subprocess.run([C.PARSER, '-Q', '-K', '--kernel-features', C.FEATURES, '-b', base, mode, *extra, path],
+    r = subprocess.run([C.PARSER, '-Q', '-K', '--policy-features', C.FEATURES, '--kernel-features', C.FEATURES, '-b', base, mode, *extra, path],
                        cwd=base, capture_output=True)
     if r.returncode == 0:
         return True, '', r.stdout
